@@ -221,6 +221,14 @@ def fam_bidi(rng, i):
               wnd=20000, synwnd=20000, drop=[rng.randrange(1, 8)] if i % 4 == 2 else [])
 
 
+def fam_dataacks(rng, i):
+    # the peer sends DATA segments of its own while a's first segment is missing: the same ack number arrives four or more
+    # times, but not in duplicate ACKs (RFC 5681: a duplicate ACK carries no data): no early retransmission is justified
+    mss = rng.choice([250, 300])
+    return mk(rng, 'dataacks%d' % i, 9 * mss, mss=mss, quiet_ooo=True, drop=[1], wnd=30000, synwnd=30000, ts=(i % 2 == 1),
+              rules=[dict(on='data', n=rng.choice([2, 3, 5]), do='write', bytes=rng.choice([6000, 9000]))])
+
+
 def fam_random(rng, i):
     mss = rng.choice([0, 1, 8, 100, 300, 536, 1460])
     mtu = rng.choice([1500, 1500, 576, 200])
@@ -289,7 +297,7 @@ FAMILIES = {
     'mss': (fam_mss, 12, 2), 'ws': (fam_ws, 9, 1), 'smallwnd': (fam_smallwnd, 8, 1), 'zerownd': (fam_zerownd, 8, 1), 'shrink': (fam_shrink, 6, 1),
     'dupk': (fam_dupk, 1, 16), 'latedup': (fam_latedup, 0, 4), 'partial': (fam_partial, 2, 8), 'multiloss': (fam_multiloss, 1, 6),
     'lossinrec': (fam_lossinrec, 0, 4), 'silent': (fam_silent, 0, 5), 'stretch': (fam_ackevery, 1, 8), 'bogus': (fam_bogus, 4, 5),
-    'bidi': (fam_bidi, 6, 3), 'random': (fam_random, 10, 10),
+    'bidi': (fam_bidi, 6, 3), 'dataacks': (fam_dataacks, 0, 3), 'random': (fam_random, 10, 10),
 }
 
 
@@ -401,7 +409,23 @@ def raw_peer(ctx, props, n_quick, n_thorough):
     n = ctx.pick(n_quick, n_thorough)
     scs = scenarios(rng, props, n)
     name = 'raw' + ''.join(props).lower()
-    segs, stats, rep = tcplib.run_pair(ctx, drv, scs, props, name, what='TCP against a scripted raw peer (%s)' % '+'.join(props), classify=tcplib.classify_all, kind='rawpeer', judge_unfinished=True)
+    what = 'TCP against a scripted raw peer (%s)' % '+'.join(props)
+    try:
+        segs, stats, rep = tcplib.run_pair(ctx, drv, scs, props, name, what=what, classify=tcplib.classify_all, kind='rawpeer', judge_unfinished=True)
+    except vlib.Inconclusive as e:
+        if 'panic' not in str(e) and 'fatal error' not in str(e):
+            raise
+        # the driver process died: a panic inside the real stack (it runs in goroutines of its own, the driver cannot recover
+        # it).  Find the scenarios that kill it (each alone in a process of its own): that is behaviour of the code under test.
+        crashed = crashing_scenarios(ctx, drv, scs, name)
+        if not crashed:
+            raise
+        for i, msg in crashed:
+            ctx.violation('%s: the stack panicked in scenario %s: %s' % (what, scs[i].get('tag'), msg), dict(kind='rawpeer', scenario=scs[i], panic=msg))
+        dead = set(i for i, _ in crashed)
+        scs = [sc for i, sc in enumerate(scs) if i not in dead]
+        segs, stats, rep = tcplib.run_pair(ctx, drv, scs, props, name + 'b', what=what, classify=tcplib.classify_all, kind='rawpeer', judge_unfinished=True)
+        stats['stack_panics'] = len(dead)
     fams = {}
     tot = {}
     per = []
@@ -420,12 +444,12 @@ def raw_peer(ctx, props, n_quick, n_thorough):
                               passive_open_of_the_stack=sum(1 for sc in scs if sc['a'].get('passive')))
     ctx.extra['raw_peer'] = out
     if stats['accepted'] == 0:
-        raise vlib.Inconclusive('raw peer: no trace was accepted')
+        _inconclusive(ctx, 'raw peer: no trace was accepted')
     # vacuity guards: the behaviours this driver exists for must really have reached the stack
     for p in props:
         for key, txt in GUARDS.get(p, []):
             if not tot.get(key):
-                raise vlib.Inconclusive('raw peer vacuity (%s): in no scenario %s' % (p, txt))
+                _inconclusive(ctx, 'raw peer vacuity (%s): in no scenario %s' % (p, txt))
     ctx.sample(dict(kind='rawpeer-scenario', scenario=scs[0]))
     if 'C05' in props:
         # regression for fixed finding F27, judged with the C01 clauses (the bytes on the wire) as well as the C05 ones
@@ -442,11 +466,46 @@ def raw_peer(ctx, props, n_quick, n_thorough):
                 hit += 1
         out['f27_regression'] = dict(scenarios=len(regs), remainder_retransmitted=hit, accepted=rstats['accepted'], reported=len(rrep))
         if hit == 0:
-            raise vlib.Inconclusive('raw peer vacuity: no regression scenario produced a retransmission that starts in the middle of a segment')
+            _inconclusive(ctx, 'raw peer vacuity: no regression scenario produced a retransmission that starts in the middle of a segment')
         out['f28_reproduced_this_run'] = 'F28' in ctx.known_hits
     selftest(ctx, props, scs, segs, per, rep)
     ctx.assumptions += ['raw peer: endpoint b is a script (reset.raw_b): the clauses of TraceTcp bind endpoint a only; synchronous hand-over (hook H6) makes log order causal order']
     return segs, stats
+
+
+def _inconclusive(ctx, msg):
+    """a vacuity guard / self-test failed: inconclusive - unless violations were already reported (a broken stack also breaks the
+    preconditions of the guards; the verdict is then the violation, exit 1, not exit 2)"""
+    if ctx.violations:
+        ctx.extra.setdefault('raw_peer_guards_failed', []).append(msg[:300])
+        return
+    raise vlib.Inconclusive(msg)
+
+
+def crashing_scenarios(ctx, drv, scs, name):
+    """run every scenario alone in its own driver process; return [(index, first lines of the panic)] of those that kill it"""
+    import concurrent.futures
+    import os
+    import re
+
+    def one(i):
+        sp = os.path.join(ctx.work, '%s-solo%d.json' % (name, i))
+        tp = os.path.join(ctx.work, '%s-solo%d.ndjson' % (name, i))
+        vlib.write_json(sp, [scs[i]])
+        p = ctx.run([drv, 'pair', sp, tp, '1'], timeout=300, ok_rc=None)
+        for f in (sp, tp):
+            if os.path.exists(f):
+                os.remove(f)
+        if p.returncode == 0:
+            return None
+        err = p.stderr.decode('utf-8', 'replace')
+        m = re.search(r'(panic: .*|fatal error: .*)', err)
+        if not m:
+            return None
+        where = re.findall(r'^(github.com/brewlin/net-protocol/\S+)\(', err, re.M)
+        return (i, (m.group(1) + (' at ' + where[0] if where else ''))[:300])
+    with concurrent.futures.ThreadPoolExecutor(max_workers=8) as ex:
+        return [r for r in ex.map(one, range(len(scs))) if r]
 
 
 def _ok(seg):
@@ -464,7 +523,7 @@ def selftest(ctx, props, scs, segs, per, reported):
         if i is not None:
             b = copy.deepcopy(segs[i])
             for e in b:
-                if e['ev'] == 'arrive' and e.get('to') == 'a' and 'A' in e.get('flags', ''):
+                if e['ev'] == 'arrive' and e.get('to') == 'a':          # every ACK, and the SYN of a scripted active opener
                     e['wnd'] = 0
             bad.append(('rawpeer-window-zeroed', b))
         # (2) the MSS the peer announced is one byte smaller than recorded
@@ -483,7 +542,9 @@ def selftest(ctx, props, scs, segs, per, reported):
             bad.append(('rawpeer-script-declared-real', b))
     if 'C05' in props:
         # (1) the retransmission after the third duplicate ACK is missing
-        i = next((i for i in clean if per[i]['fastretx'] and scs[i]['family'] == 'dupk'), None)
+        # (a scenario in which the mandate is certain: one loss, four or more duplicate ACKs with one and the same window)
+        i = next((i for i in clean if per[i]['fastretx'] and scs[i]['family'] == 'dupk' and per[i]['retx'] == 1
+                  and any(r.get('do') == 'dupacks' and r.get('count', 0) >= 4 and not r.get('step') for r in scs[i]['peer']['rules'])), None)
         if i is not None:
             b = copy.deepcopy(segs[i])
             seen, cut = [], None
@@ -522,8 +583,8 @@ def selftest(ctx, props, scs, segs, per, reported):
     for nm, b in bad:
         a, rj = vlib.validate_segments(ctx, 'TraceTcp', tc, SPEC, [b], name='selftest-' + nm, count=False)
         if not rj:
-            raise vlib.Inconclusive('raw peer binding self-test failed: %s accepted' % nm)
+            _inconclusive(ctx, 'raw peer binding self-test failed: %s accepted' % nm)
         names.append(nm)
     if not names:
-        raise vlib.Inconclusive('raw peer binding self-test: no recorded trace was suitable')
+        _inconclusive(ctx, 'raw peer binding self-test: no recorded trace was suitable')
     ctx.extra['raw_peer']['binding_selftest'] = names
